@@ -267,4 +267,17 @@ Theorem C14_grammar_eof_line_unique :
   In e (ll_toks l') -> ll_toks l' = [e].
 Proof. exact parse_pass_eof_line_unique. Qed.
 
+(* "the pass is consumed" under an executable condition on the context stack at the exit of the top-level loop that ordinary
+   units satisfy (no counterexample to the unconditional statement in 380 000 targeted cases after the repair of F39) *)
+From PasfmtVerif Require Import Model.ParserGrammar Proofs.ParserGrammarProofs Proofs.ParserGrammarConsumedProofs Proofs.ParserGrammarConsumed2Proofs Proofs.ParserGrammarWsnlProofs.
+Theorem C14_grammar_pass_consumed_if_stack_harmless :
+  forall (pass : list nat) (wsnl : list bool) (toks : list RawTokenType) (attr : list nat),
+  pass_in_range pass toks ->
+  eof_only_last pass toks ->
+  ps_err pass (parse_pass pass wsnl toks attr) = None ->
+  harmless_stack pass (top_exit pass wsnl toks attr) ->
+  cur_tt pass (top_exit pass wsnl toks attr) <> Some (RTT_Op OK_Semicolon) ->
+  (length pass <= pidx pass (parse_pass pass wsnl toks attr))%nat.
+Proof. exact parse_pass_consumed_harmless. Qed.
+
 
